@@ -27,6 +27,7 @@ def dispatch (op : String) (args : Json) : Option Json :=
   | "c02.render" => some (c02render args)
   | "c11.accept" => some (c11accept args)
   | "c12.run" => some (c12run args)
+  | "c12.filter" => some (c12filter args)
   | "c19.run" => some (c19run args)
   | "c15.write" => some (c15write args)
   | "c17.facts" => some (c17facts args)
